@@ -15,7 +15,9 @@
 *)
 EXTENDS Naturals, Sequences, FiniteSets
 
-CONSTANTS Inst           \* set of instance ids
+CONSTANTS
+  \* @type: Set(Str);
+  Inst           \* set of instance ids
 
 Status == {"None", "Starting", "OK", "RecoverableError", "PermanentError",
            "FatalError", "Stopping", "Stopped"}
@@ -31,8 +33,11 @@ Allowed(from) ==
     [] from = "Stopping"         -> {"RecoverableError", "PermanentError", "FatalError", "Stopped"}
     [] from = "Stopped"          -> {}
 
-VARIABLES cur,        \* [Inst -> Status]   current status per instance
-          delivered   \* [Inst -> Seq(Status)] events delivered to watchers, per instance
+VARIABLES
+  \* @type: Str -> Str;
+  cur,        \* [Inst -> Status]   current status per instance
+  \* @type: Str -> Seq(Str);
+  delivered   \* [Inst -> Seq(Status)] events delivered to watchers, per instance
 
 fsmVars == <<cur, delivered>>
 
@@ -60,7 +65,8 @@ FsmNext == \E i \in Inst, w \in ReportKinds : Report(i, w)
 -----------------------------------------------------------------------------
 (* The property, clause by clause, over the delivered events only. *)
 
-Pairs(s) == { <<s[k], s[k+1]>> : k \in 1..(Len(s)-1) }
+\* @type: Seq(Str) => Set(<<Str, Str>>);
+Pairs(s) == { <<s[k], s[k+1]>> : k \in {j \in DOMAIN s : j + 1 \in DOMAIN s} }
 
 BeginsWithStarting  == \A i \in Inst : delivered[i] # <<>> => Head(delivered[i]) = "Starting"
 NeverRepeats        == \A i \in Inst : \A p \in Pairs(delivered[i]) : p[1] # p[2]
@@ -69,7 +75,7 @@ PermanentOnlyToStop == \A i \in Inst : \A p \in Pairs(delivered[i]) :
 NothingAfterFinal   == \A i \in Inst : \A p \in Pairs(delivered[i]) :
                           p[1] \notin {"FatalError", "Stopped"}
 StartingOnlyFirst   == \A i \in Inst : \A p \in Pairs(delivered[i]) : p[2] # "Starting"
-NoneNeverDelivered  == \A i \in Inst : \A k \in 1..Len(delivered[i]) : delivered[i][k] # "None"
+NoneNeverDelivered  == \A i \in Inst : \A k \in DOMAIN delivered[i] : delivered[i][k] # "None"
 PathOfDiagram       == \A i \in Inst :
                           /\ \A p \in Pairs(delivered[i]) : p[2] \in Allowed(p[1])
                           /\ delivered[i] # <<>> => Head(delivered[i]) \in Allowed("None")
